@@ -40,6 +40,7 @@ type c09In struct {
 	Body    string `json:"body"`            // valid | invalid | none
 	Accept  string `json:"accept"`          // json | png | absent | any
 	Key     string `json:"key"`             // good | bad | absent
+	Esc     bool   `json:"esc,omitempty"`   // the id segment carries percent-escapes (URL.Path differs from URL.EscapedPath)
 	Ops     []int  `json:"ops,omitempty"`   // 0 RouteInfo 1 ContentType 2 ResponseFormat(route offers) 3 ResponseFormat(other offers) 4 Authorize 5 BindAndValidate 6 ResetAuth
 	N       int    `json:"n,omitempty"`     // conc: number of goroutines
 	Procs   int    `json:"procs,omitempty"` // conc: GOMAXPROCS is not changed; kept for the record
@@ -221,8 +222,19 @@ func c09Rendezvous() {
 	atomic.AddInt64(&c09Inside, -1)
 }
 
+// c09ID is the id the operation must see for request rid.
+func c09ID(in c09In, rid string) string {
+	if in.Esc {
+		return rid + "/z é"
+	}
+	return rid
+}
+
 func c09Request(in c09In, rid string) *http.Request {
 	method, path := "POST", "/items/"+rid
+	if in.Esc {
+		path += "%2Fz%20%C3%A9"
+	}
 	switch in.Target {
 	case "open":
 		method, path = "GET", "/open"
@@ -410,7 +422,7 @@ func c09Op(a *c09API, in c09In, rid string, req *http.Request, o int) (c09Step, 
 			id = 2
 			if strings.HasPrefix(mr.PathPattern, "/items") {
 				id = 1
-				if got := mr.Params.Get("id"); got != rid {
+				if got := mr.Params.Get("id"); got != c09ID(in, rid) {
 					c09Leak("RouteInfo: request %s matched with id %q", rid, got)
 				}
 			}
@@ -466,7 +478,7 @@ func c09Op(a *c09API, in c09In, rid string, req *http.Request, o int) (c09Step, 
 		bound, r, err := ctx.BindAndValidate(req, mr)
 		st.Res = "RBind " + c09Codes(err)
 		if m, ok := bound.(map[string]interface{}); ok && in.Target == "items" {
-			if id, present := m["id"]; present && id != rid {
+			if id, present := m["id"]; present && id != c09ID(in, rid) {
 				c09Leak("BindAndValidate: request %s bound id %v", rid, id)
 			}
 			if b, ok := m["body"].(map[string]interface{}); ok && b["rid"] != nil && b["rid"] != rid {
@@ -543,6 +555,7 @@ func c09RunConc(in c09In, a *c09API, obs *c09Obs) {
 		j.Body = []string{"valid", "valid", "invalid", "none"}[r.Intn(4)]
 		j.CT = []string{"json", "json", "jsoncs", "text", "absent"}[r.Intn(5)]
 		j.Accept = []string{"json", "absent", "png", "any", "star"}[r.Intn(5)]
+		j.Esc = r.Intn(3) == 0
 		jobs = append(jobs, job{j, fmt.Sprintf("r%d", i)})
 	}
 	// reference: every request served alone, one after the other
@@ -580,7 +593,7 @@ func c09RunConc(in c09In, a *c09API, obs *c09Obs) {
 						ok = false
 					} else {
 						b, _ := m["body"].(map[string]interface{})
-						ok = m["id"] == jb.rid && b != nil && b["rid"] == jb.rid
+						ok = m["id"] == c09ID(jb.in, jb.rid) && b != nil && b["rid"] == jb.rid
 					}
 				}
 				if !ok {
@@ -674,7 +687,7 @@ func (c09) Gen(r *rand.Rand, tier string, i int) any {
 		nreq := 2 + r.Intn(2)
 		for j := 0; j < nreq; j++ {
 			q := c09In{Kind: "seq", Target: []string{"items", "items", "items", "open"}[r.Intn(4)], CT: c09Pick(r, "ct"), Body: c09Pick(r, "body"),
-				Accept: c09Pick(r, "accept"), Key: c09Pick(r, "key")}
+				Accept: c09Pick(r, "accept"), Key: c09Pick(r, "key"), Esc: r.Intn(3) == 0}
 			m.Reqs = append(m.Reqs, q)
 			m.Sched = append(m.Sched, [2]int{j, 0})
 		}
@@ -684,7 +697,7 @@ func (c09) Gen(r *rand.Rand, tier string, i int) any {
 		return m
 	}
 	in := c09In{Kind: "seq", Anon: r.Intn(2) == 0, Authz: c09Pick(r, "authz"), Target: c09Pick(r, "target"), CT: c09Pick(r, "ct"),
-		Body: c09Pick(r, "body"), Accept: c09Pick(r, "accept"), Key: c09Pick(r, "key")}
+		Body: c09Pick(r, "body"), Accept: c09Pick(r, "accept"), Key: c09Pick(r, "key"), Esc: r.Intn(3) == 0}
 	n := 1 + r.Intn(14)
 	if r.Intn(3) != 0 {
 		in.Ops = append(in.Ops, 0) // most histories start by matching the route, as the pipeline does
